@@ -151,6 +151,14 @@ impl Inv {
         })
     }
 
+    /// indices of the clients that are members of g in client i's MLS state
+    fn members_in(&mut self, i: usize, g: usize) -> String {
+        let gid = self.groups[g].clone();
+        let pks: Vec<PublicKey> = self.w.clients.iter().map(|c| c.keys.public_key()).collect();
+        let v: BTreeSet<usize> = self.with(i, |_, mdk| with_mdk!(mdk, |m| m.get_members(&gid).map(|s| s.iter().filter_map(|p| pks.iter().position(|x| x == p)).collect()).unwrap_or_default()));
+        format!("in=[{}]", v.iter().map(|x| x.to_string()).collect::<Vec<_>>().join(","))
+    }
+
     fn push_welcome(&mut self, rumor: UnsignedEvent) -> usize {
         if let Some(id) = rumor.id {
             self.rnum(&id);
@@ -317,7 +325,8 @@ impl Inv {
                         let g = self.gnum(&res.group.mls_group_id);
                         let ws: Vec<String> = res.welcome_rumors.into_iter().map(|r| self.push_welcome(r).to_string()).collect();
                         let mv = self.mls_view(i, g);
-                        format!("ok g={g} w={} {}", ws.join(","), mv.map(|(e, t, m)| format!("epoch={e} tok={t} members={m}")).unwrap_or_default())
+                        let inn = self.members_in(i, g);
+                        format!("ok g={g} w={} {} {inn}", ws.join(","), mv.map(|(e, t, m)| format!("epoch={e} tok={t} members={m}")).unwrap_or_default())
                     }
                     Err(e) => err_kind(&e),
                 }
@@ -353,7 +362,8 @@ impl Inv {
                         let ev = self.push_event(res.evolution_event);
                         let ws: Vec<String> = res.welcome_rumors.unwrap_or_default().into_iter().map(|r| self.push_welcome(r).to_string()).collect();
                         let mv = self.mls_view(i, g);
-                        format!("ok ev={ev} w={} {}", if ws.is_empty() { "-".into() } else { ws.join(",") }, mv.map(|(e, t, m)| format!("epoch={e} tok={t} members={m}")).unwrap_or_default())
+                        let inn = self.members_in(i, g);
+                        format!("ok ev={ev} w={} {} {inn}", if ws.is_empty() { "-".into() } else { ws.join(",") }, mv.map(|(e, t, m)| format!("epoch={e} tok={t} members={m}")).unwrap_or_default())
                     }
                     Err(e) => err_kind(&e),
                 }
@@ -514,6 +524,7 @@ impl Inv {
                 let rounds = u(t[3]);
                 let mut counts: BTreeSet<String> = BTreeSet::new();
                 let (mut napp, mut ncommit, mut nwel, mut total) = (0, 0, 0, 0);
+                let mut seq: Vec<String> = Vec::new();
                 for round in 0..rounds {
                     let mut items: Vec<(bool, usize)> = (0..self.w.events.len()).map(|e| (true, e)).chain((0..self.welcomes.len()).map(|w| (false, w))).collect();
                     for k in (1..items.len()).rev() {
@@ -524,6 +535,7 @@ impl Inv {
                     }
                     for (is_ev, n) in items {
                         total += 1;
+                        seq.push(format!("{}{n}", if is_ev { "e" } else { "w" }));
                         if is_ev {
                             let ev = self.w.events[n].clone();
                             let r = self.with(j, |_, mdk| with_mdk!(mdk, |m| result_kind(m.process_message(&ev))));
@@ -551,7 +563,7 @@ impl Inv {
                         }
                     }
                 }
-                format!("ok fed={total} app={napp} commit={ncommit} welcomes={nwel} kinds={}", counts.into_iter().collect::<Vec<_>>().join("+"))
+                format!("ok fed={total} app={napp} commit={ncommit} welcomes={nwel} kinds={} seq={}", counts.into_iter().collect::<Vec<_>>().join("+"), if seq.is_empty() { "-".into() } else { seq.join(",") })
             }
             "audit" => {
                 // audit <j>: the content tokens of every message row client j holds, per group
